@@ -26,6 +26,7 @@ type refModel struct {
 	batchWrites    []histWrite
 	history        []histEntry       // acknowledged mutations of the current directory, in order
 	base           map[string][]byte // mapping before the first of them
+	dtDirty        bool              // data-structure commands wrote records since the last dump: the next dump re-seeds the map
 }
 
 // ack records an acknowledged mutation (a Put, a Delete that wrote, a committed batch).
@@ -217,6 +218,12 @@ func (m *refModel) afterOpen(r *EngineRunner) {
 func (m *refModel) checkDump(r *EngineRunner, d map[string][]byte) {
 	prop := m.pending
 	m.pending = "C01"
+	if m.dtDirty && prop != "C20" && prop != "crash" {
+		m.dtDirty = false
+		m.m = d
+		m.maps[m.curDir] = m.m
+		return
+	}
 	switch prop {
 	case "C20":
 		bk := m.backups[r.cur]
